@@ -156,7 +156,13 @@ def scan_step(p):
         if probe is not rs.state.markers.STATE_NOTSET:
             raise Inconclusive('scan_mux no longer keeps its accumulator in state 0 as NOTSET until the first item')
         if has:
-            store.set_state(0, key, stored)
+            try:
+                store.set_state(0, key, stored)
+                back = store.get_state(0, key)
+            except Exception:
+                back = 'unwritable'
+            if snap(back) != snap(stored):
+                raise Inconclusive('scan_mux no longer keeps its accumulator as a plain value in state 0')
         del out[:]
         base = copy.deepcopy(stored) if has else mkseed()
         if p['event'] == 'next':
